@@ -87,6 +87,25 @@ CLAIMS["C12"] = dict(
          "relative to the block; on the implementation alone the block must equal the conjunction of its single-key parts.",
     note=TRUST + "operator evaluation order = field declaration order regenerated from the live class (it decides False vs None when one part fails and another raises).")
 
+CLAIMS["C16"] = dict(
+    technique="Lean 4 proof (effect normalisation ↔ case-insensitive allow/deny by character lemmas; principal enumeration complete over an inductive description of all shapes; Allow-only and whitelist filters) + differential correspondence",
+    text="Policy.normEffect / principalList / nonWhitelisted / nonWhitelistedAllowed transliterate the Effect validator and the principal queries "
+         "on dumped statements. Proved for all strings and statements: an Effect is accepted iff it lower-cases to allow/deny and is stored "
+         "capitalised (C16_effect); p is enumerated iff it is Named by the Principal or NotPrincipal element (string, list member, or string / "
+         "list member under one of the four regenerated keys) (C16_principals); the whitelist filter is exact (C16_whitelist); the policy-level "
+         "queries count exactly the Allow statements (C16_allow_only). Correspondence on random documents of mixed effects, shapes and whitelists.",
+    note=TRUST + "ASCII letter case; resolved statements (string principals). Allowed-action queries are C09.")
+CLAIMS["C17"] = dict(
+    technique="Lean 4 proof (dotted-quad and prefix spellings by complete kernel enumeration of 256 octets / 33 lengths lifted by split lemmas; masking arithmetic; slash-zero ↔ whole space; RDS predicate) + differential correspondence over all prefix lengths and spellings",
+    text="Net.parse4 / parse6 transliterate what ipaddress accepts (strict=False). Proved: every dotted quad of octets 0–255 parses to its 32-bit "
+         "value (C17_parse_quad, from a kernel-checked enumeration of all 256 octet texts); for every prefix length 0–32 the decimal, "
+         "zero-padded, dotted-netmask and dotted-hostmask spellings denote that length (C17_prefix_spellings, complete enumeration); hence "
+         "address/prefix text is stored as the masked network (C17_parse4, C17_masked); slash-zero ⇔ prefix 0 ⇔ the whole address space, "
+         "false when absent (C17_slash_zero, C17_absent_false); RDS is_public iff no CIDR and no source group, or 0.0.0.0/0, or outside every "
+         "private range of the regenerated interpreter table and the shared range (C17_rds_public, C17_private_not_public). Correspondence: all "
+         "33 / 129 prefix lengths × boundary addresses × spellings and malformed texts through five routes, and through a resolved Ref.",
+    note=TRUST + "Python's ipaddress module decides what a text denotes (exercised on every length and spelling); IPv6 parsing is modelled and compared but its spelling relation is not proved (partial); scope ids not generated.")
+
 DESIGN_REF = {k: f"DESIGN.md §5 {k}" for k in CLAIMS}
 
 
